@@ -62,6 +62,42 @@ func runC02(p *Prog, l *Ledger) {
 				}
 			}
 		}
+		if len(tokF) == 1 {
+			// who may give the token back: the three outcomes (and what they call). A fourth way out - a watcher on the
+			// request context, a finaliser, a Close - releases a token that an outcome will release again
+			allowed := map[*ssa.Function]bool{}
+			for _, mname := range c02Outcomes {
+				if m := p.Method(nt, mname); m != nil {
+					allowed[m] = true
+				}
+			}
+			for i := 0; i < 2; i++ {
+				for g := range allowed {
+					allInstrs(g, func(ins ssa.Instruction) {
+						if c := p.CallOf(ins); c != nil && c.Static != nil && p.InModule(c.Static) && !p.addrTaken[c.Static] {
+							allowed[c.Static] = true
+						}
+					})
+				}
+			}
+			var wbad []string
+			nrel := 0
+			for _, g := range p.Funcs {
+				allInstrs(g, func(ins ssa.Instruction) {
+					c := p.CallOf(ins)
+					if c == nil || !p.isCoreInvoke(c, "StrategyToken", "Release") {
+						return
+					}
+					if fr, _, ok := loadedField(strip(c.Recv, false)); ok && sameField(fr, tokF[0]) {
+						nrel++
+						if !allowed[g] {
+							wbad = append(wbad, fmt.Sprintf("%s: the listener's token is released in %s, which is not one of its three outcomes: the unit of capacity can be given back twice", p.At(ins), p.Key(g)))
+						}
+					}
+				})
+			}
+			l.Check(len(wbad) == 0 && nrel > 0, "O1", p.TypeKey(nt)+"/release-sites", "", fmt.Sprintf("%d token.Release() call sites, all inside OnSuccess / OnIgnore / OnDropped", nrel), "capacity can be given back by something other than the listener's single outcome", wbad...)
+		}
 		for _, mname := range c02Outcomes {
 			m := p.Method(nt, mname)
 			if m == nil {
@@ -810,6 +846,55 @@ func c02Partitions(p *Prog, l *Ledger, locks *LockInfo) {
 			l.Check(len(cbad) == 0 && n > 0, "O5", ckey, p.FuncPos(cl), "gives back total-1 and the captured bin once, under the strategy mutex", "the release closure does not give back exactly what was charged", cbad...)
 			_ = binType
 		}
+		// who may write the total: TryAcquire (+1 on a grant), the release function (-1) and constructors. Any other
+		// writer (a 'correction' when a partition is removed, a reset) makes the total differ from the outstanding tokens
+		{
+			var totals []FieldRef
+			allInstrs(fn, func(ins ssa.Instruction) {
+				if d, ok := p.DeltaOf(ins); ok && types.Identical(d.Field.Type, st) {
+					totals = append(totals, d.Field)
+				}
+			})
+			allowed := map[*ssa.Function]bool{fn: true, relFn: true}
+			for i := 0; i < 2; i++ {
+				for g := range allowed {
+					if g == nil {
+						continue
+					}
+					allInstrs(g, func(ins ssa.Instruction) {
+						if c := p.CallOf(ins); c != nil && c.Static != nil && p.InModule(c.Static) {
+							allowed[c.Static] = true
+						}
+					})
+				}
+			}
+			var wbad []string
+			nw := 0
+			for _, g := range p.Funcs {
+				for _, a := range p.Accesses(g) {
+					if !a.Write || a.Pointee {
+						continue
+					}
+					isTotal := false
+					for _, t := range totals {
+						if sameField(a.Field, t) {
+							isTotal = true
+						}
+					}
+					if !isTotal {
+						continue
+					}
+					if _, fresh := AccessPath(a.Base).Root.(*ssa.Alloc); fresh {
+						continue
+					}
+					nw++
+					if !allowed[g] {
+						wbad = append(wbad, fmt.Sprintf("%s: the strategy's total counter %s is written in %s, which neither grants nor releases a token", p.At(a.Instr), a.Field.Name, p.Key(g)))
+					}
+				}
+			}
+			l.Check(len(wbad) == 0 && nw > 0, "O5", key+"/total-writers", p.FuncPos(fn), fmt.Sprintf("%d writes of the total counter, all in TryAcquire / the release function", nw), "the total can differ from the number of outstanding tokens", wbad...)
+		}
 		// bin Acquire / Release are +1 / -1 on the same field
 		var pt *types.Named
 		allInstrs(fn, func(ins ssa.Instruction) {
@@ -834,6 +919,23 @@ func c02Partitions(p *Prog, l *Ledger, locks *LockInfo) {
 					}
 				})
 				okD := len(ds) == 1 && ds[0].By == pair[1].(int64) && len(m.Blocks) >= 1
+				if okD && pair[0].(string) == "Acquire" {
+					// who may write the bin counter: the partition's own Acquire / Release (and constructors)
+					var wbad []string
+					for _, g := range p.Funcs {
+						if g == m || g == p.Method(pt, "Release") {
+							continue
+						}
+						for _, a := range p.Accesses(g) {
+							if a.Write && !a.Pointee && sameField(a.Field, ds[0].Field) {
+								if _, fresh := AccessPath(a.Base).Root.(*ssa.Alloc); !fresh {
+									wbad = append(wbad, fmt.Sprintf("%s: the bin counter %s is written in %s", p.At(a.Instr), a.Field.Name, p.Key(g)))
+								}
+							}
+						}
+					}
+					l.Check(len(wbad) == 0, "O5", p.TypeKey(pt)+"/bin-writers", p.FuncPos(m), "the bin counter is written only by the partition's Acquire and Release", "a bin count can differ from the outstanding tokens of that bin", wbad...)
+				}
 				l.Check(okD, "O5", p.Key(m), p.FuncPos(m), fmt.Sprintf("changes the bin counter by %+d exactly once", pair[1].(int64)), fmt.Sprintf("partition %s does not change the bin counter by exactly %+d", pair[0], pair[1].(int64)))
 			}
 		}
@@ -1057,18 +1159,45 @@ func (p *Prog) drainHelper(g *ssa.Function) string {
 			return false
 		}
 		rv := pa.ReturnValues()
+		returnsReceived := false
 		for _, r := range rv {
 			r = strip(r, false)
 			if isNilConst(r) {
 				continue
 			}
 			if ex, ok := r.(*ssa.Extract); ok && ex.Tuple == ssa.Value(sel) {
+				returnsReceived = true
 				continue
 			}
 			if types.Identical(r.Type(), lis) {
 				why = "returns a listener that was not received from the hand-off channel"
 				return false
 			}
+		}
+		// a path that found a listener in the channel hands it to its caller: it was delivered together with the
+		// capacity, so completing it here (or dropping it) frees that capacity without waking the next waiter and
+		// refuses a caller that had been granted
+		received := false
+		pa.Each(func(step int, ins ssa.Instruction) bool {
+			if ex, ok := ins.(*ssa.Extract); ok && ex.Tuple == ssa.Value(sel) && ex.Index >= 2 {
+				received = true
+			}
+			return true
+		})
+		for _, fct := range pa.Facts {
+			bo, ok := fct.Cond.(*ssa.BinOp)
+			if !ok || bo.Op != token.EQL || !fct.True {
+				continue
+			}
+			if ex, ok := strip(bo.X, false).(*ssa.Extract); ok && ex.Tuple == ssa.Value(sel) && ex.Index == 0 {
+				if k, isC := constInt(bo.Y); isC && int(k) < len(sel.States) && sel.States[k].Dir == types.RecvOnly {
+					received = true
+				}
+			}
+		}
+		if received && !returnsReceived {
+			why = "a listener found in the hand-off channel is not returned to the caller (it was delivered together with the capacity: completing or dropping it here frees the capacity without waking the next waiter): " + joinWitness(p.DescribePath(pa))
+			return false
 		}
 		return true
 	})
